@@ -160,7 +160,7 @@ Proof.
   - intros b b' H. cbn [push] in H. apply reset_push_none, H.
   - intros b b' H. cbn [push] in H. apply IHv, H.
   - intros b b' H. cbn [push] in H. apply reset_push_none, H.
-  - reset_leaf.
+  - intros b b' H. cbn [push] in H. apply reset_push_none, H.
   - intros b b' H. cbn [push] in H. apply IHv, H.
   - intros b b' H0. destruct b; cbn [push] in H0; try discriminate;
       first [eapply reset_list; eassumption | revert H0; generalize b'; reset_leaf].
